@@ -3,9 +3,11 @@
 id=$1; seed=/verif/seeded/$2
 cd /verif
 git -C /repo diff --quiet || { echo "/repo has uncommitted changes; refusing"; exit 2; }
+cp evidence/$id.json /tmp/evidence.$id.$$ 2>/dev/null
 git -C /repo apply $seed/patch.diff || exit 2
 ./check $id 2>&1 | cut -c1-220 > /tmp/seedrun.$$; rc=${PIPESTATUS[0]}
 git -C /repo apply -R $seed/patch.diff
+[ -f /tmp/evidence.$id.$$ ] && mv /tmp/evidence.$id.$$ evidence/$id.json
 cat /tmp/seedrun.$$; rm -f /tmp/seedrun.$$
 echo "check exit=$rc"
 exit 0
